@@ -89,15 +89,20 @@ pub enum JVal {
 
 #[derive(Clone, PartialEq, Eq, Debug, Hash, Serialize, Deserialize)]
 pub enum JOp {
-    DeleteKey,
+    /// remove the k-th child (object member or array element)
+    DeleteChild(u16),
     AddKey(String, JVal),
+    /// replace the node itself
     Replace(JVal),
-    RenameKey(String),
-    DuplicateElem,
+    /// rename the key of the k-th member of an object
+    RenameChild(u16, String),
+    /// append a copy of the k-th element of an array
+    DuplicateChild(u16),
 }
 
 /// A structural fault on the JSON value: walk `path` (each step picks a child
-/// by index modulo the number of children), then apply `op` there.
+/// by index modulo the number of children, stopping early at a leaf), then
+/// apply `op` to the node reached.
 #[derive(Clone, PartialEq, Eq, Debug, Hash, Serialize, Deserialize)]
 pub struct JFault {
     pub path: Vec<u16>,
@@ -380,12 +385,13 @@ fn gen_jfault(rng: &mut Rng) -> JFault {
     let depth = rng.below(9);
     let path = (0..depth).map(|_| rng.next_u64() as u16).collect();
     let key = |rng: &mut Rng| rng.pick(&JKEYS).to_string();
+    let k = rng.next_u64() as u16;
     let op = match rng.below(6) {
-        0 => JOp::DeleteKey,
+        0 => JOp::DeleteChild(k),
         1 => JOp::AddKey(key(rng), gen_jval(rng)),
         2 | 3 => JOp::Replace(gen_jval(rng)),
-        4 => JOp::RenameKey(key(rng)),
-        _ => JOp::DuplicateElem,
+        4 => JOp::RenameChild(k, key(rng)),
+        _ => JOp::DuplicateChild(k),
     };
     JFault { path, op }
 }
@@ -403,7 +409,16 @@ pub fn generate(rng: &mut Rng) -> Result<WireScenario, String> {
     let n_frames = rng.range(1, 4) as usize;
     let mut frames = Vec::new();
     for _ in 0..n_frames {
-        frames.push(gen_frame(rng, &strs)?);
+        // a frame source that fails (library code outside the codec panicked
+        // while a registry was being assembled) is not this engine's business:
+        // fall back to a directly generated registry
+        match gen_frame(rng, &strs) {
+            Ok(f) => frames.push(f),
+            Err(_) => {
+                probe("frame_source.failed_replaced_by_direct");
+                frames.push(gen_direct(rng, &strs, true));
+            }
+        }
     }
     let sentinel: Vec<u8> = (0..rng.range(0, 6)).map(|_| rng.next_u64() as u8).collect();
     let writer = gen_script(rng);
@@ -622,12 +637,11 @@ fn jval(v: &JVal) -> serde_json::Value {
 /// Apply a structural fault; returns whether the value changed.
 pub fn apply_jfault(root: &mut serde_json::Value, f: &JFault) -> bool {
     let before = root.clone();
-    let pick = f.path.last().copied().unwrap_or(0) as usize;
-    jwalk(root, &f.path, &f.op, pick);
+    jwalk(root, &f.path, &f.op);
     *root != before
 }
 
-fn jwalk(cur: &mut serde_json::Value, path: &[u16], op: &JOp, pick: usize) {
+fn jwalk(cur: &mut serde_json::Value, path: &[u16], op: &JOp) {
     use serde_json::Value;
     if let Some((step, rest)) = path.split_first() {
         let next: Option<&mut Value> = match cur {
@@ -642,36 +656,147 @@ fn jwalk(cur: &mut serde_json::Value, path: &[u16], op: &JOp, pick: usize) {
             _ => None,
         };
         if let Some(v) = next {
-            return jwalk(v, rest, op, pick);
+            return jwalk(v, rest, op);
         }
     }
     match (op, cur) {
         (JOp::Replace(v), c) => *c = jval(v),
-        (JOp::DeleteKey, Value::Object(o)) if !o.is_empty() => {
-            let k = o.keys().nth(pick % o.len()).cloned().unwrap();
-            o.remove(&k);
+        (JOp::DeleteChild(k), Value::Object(o)) if !o.is_empty() => {
+            let key = o.keys().nth(*k as usize % o.len()).cloned().unwrap();
+            o.remove(&key);
         }
-        (JOp::DeleteKey, Value::Array(a)) if !a.is_empty() => {
+        (JOp::DeleteChild(k), Value::Array(a)) if !a.is_empty() => {
             let n = a.len();
-            a.remove(pick % n);
+            a.remove(*k as usize % n);
         }
         (JOp::AddKey(k, v), Value::Object(o)) => {
             o.insert(k.clone(), jval(v));
         }
         (JOp::AddKey(_, v), Value::Array(a)) => a.push(jval(v)),
-        (JOp::RenameKey(nk), Value::Object(o)) if !o.is_empty() => {
-            let k = o.keys().nth(pick % o.len()).cloned().unwrap();
-            if let Some(v) = o.remove(&k) {
+        (JOp::RenameChild(k, nk), Value::Object(o)) if !o.is_empty() => {
+            let key = o.keys().nth(*k as usize % o.len()).cloned().unwrap();
+            if let Some(v) = o.remove(&key) {
                 o.insert(nk.clone(), v);
             }
         }
-        (JOp::DuplicateElem, Value::Array(a)) if !a.is_empty() => {
+        (JOp::DuplicateChild(k), Value::Array(a)) if !a.is_empty() => {
             let n = a.len();
-            let c = a[pick % n].clone();
+            let c = a[*k as usize % n].clone();
             a.push(c);
         }
         _ => {}
     }
+}
+
+/// Replacement values of the structural JSON sweep.
+fn sweep_jvals() -> Vec<JVal> {
+    vec![
+        JVal::Null,
+        JVal::Bool(true),
+        JVal::Int(-1),
+        JVal::Int(0),
+        JVal::Int(255),
+        JVal::Int(256),
+        JVal::Big(1 << 32),
+        JVal::Big(u64::MAX),
+        JVal::Float(0),
+        JVal::Float(3),
+        JVal::Str(String::new()),
+        JVal::Str("\u{fc}8".to_string()),
+        JVal::Str("u8".to_string()),
+        JVal::Str("U8".to_string()),
+        JVal::Str("\u{0}".to_string()),
+        JVal::Arr,
+        JVal::Obj,
+        JVal::Deep(200),
+    ]
+}
+
+const DEF_TAGS: [&str; 8] =
+    ["composite", "variant", "sequence", "array", "tuple", "primitive", "compact", "bitsequence"];
+
+/// Every single structural fault of the JSON sweep for a document: at every
+/// node every replacement value; for every object member its deletion and its
+/// renaming to an unknown key; an unknown key added to every object; a second
+/// definition tag added to every definition object; for every array the
+/// duplication and the deletion of its first element and an appended null.
+pub fn json_sweep_faults(root: &serde_json::Value) -> Vec<JFault> {
+    use serde_json::Value;
+    fn rec(v: &Value, path: &mut Vec<u16>, out: &mut Vec<JFault>, vals: &[JVal]) {
+        for x in vals {
+            out.push(JFault { path: path.clone(), op: JOp::Replace(x.clone()) });
+        }
+        match v {
+            Value::Object(o) => {
+                for (k, _) in o.iter().enumerate() {
+                    out.push(JFault { path: path.clone(), op: JOp::DeleteChild(k as u16) });
+                    out.push(JFault { path: path.clone(), op: JOp::RenameChild(k as u16, "unknown".into()) });
+                }
+                out.push(JFault { path: path.clone(), op: JOp::AddKey("unknown".into(), JVal::Int(1)) });
+                if o.keys().any(|k| DEF_TAGS.contains(&k.as_str())) {
+                    for t in DEF_TAGS {
+                        if !o.contains_key(t) {
+                            out.push(JFault { path: path.clone(), op: JOp::AddKey(t.into(), JVal::Obj) });
+                            out.push(JFault { path: path.clone(), op: JOp::AddKey(t.into(), JVal::Int(0)) });
+                        }
+                    }
+                }
+                for (k, (_, c)) in o.iter().enumerate() {
+                    path.push(k as u16);
+                    rec(c, path, out, vals);
+                    path.pop();
+                }
+            }
+            Value::Array(a) => {
+                if !a.is_empty() {
+                    out.push(JFault { path: path.clone(), op: JOp::DuplicateChild(0) });
+                    out.push(JFault { path: path.clone(), op: JOp::DeleteChild(0) });
+                }
+                out.push(JFault { path: path.clone(), op: JOp::AddKey(String::new(), JVal::Null) });
+                for (k, c) in a.iter().enumerate() {
+                    path.push(k as u16);
+                    rec(c, path, out, vals);
+                    path.pop();
+                }
+            }
+            _ => {}
+        }
+    }
+    let mut out = Vec::new();
+    rec(root, &mut Vec::new(), &mut out, &sweep_jvals());
+    out
+}
+
+/// Offsets and lengths of the number tokens of a JSON text (outside strings).
+pub fn json_number_sites(text: &[u8]) -> Vec<(usize, usize)> {
+    let mut out = Vec::new();
+    let mut i = 0;
+    let mut in_str = false;
+    while i < text.len() {
+        let b = text[i];
+        if in_str {
+            if b == b'\\' {
+                i += 2;
+                continue;
+            }
+            if b == b'"' {
+                in_str = false;
+            }
+            i += 1;
+        } else if b == b'"' {
+            in_str = true;
+            i += 1;
+        } else if b.is_ascii_digit() || b == b'-' {
+            let start = i;
+            while i < text.len() && (text[i].is_ascii_digit() || matches!(text[i], b'-' | b'+' | b'.' | b'e' | b'E')) {
+                i += 1;
+            }
+            out.push((start, i - start));
+        } else {
+            i += 1;
+        }
+    }
+    out
 }
 
 // ---------------------------------------------------------------------------
@@ -1220,7 +1345,47 @@ pub fn sweep_scenario(frame: &PReg) -> Result<Option<WireScenario>, String> {
     if sites.is_none() {
         probe("aiming_parser.disagreement");
     }
-    let cases = sweep_cases(bytes.len(), sites.as_deref());
+    let mut cases = sweep_cases(bytes.len(), sites.as_deref());
+    let n_scale_cases = cases.len();
+    // the JSON form of the same frame: every single structural fault, and
+    // every number token rewritten to out-of-range / malformed numbers
+    let lib = frame.to_lib();
+    if let Ok(v) = core::catch(|| serde_json::to_value(&lib).expect("to_value")) {
+        let faults = json_sweep_faults(&v);
+        if faults.len() <= 40_000 {
+            probe("sweep.json_documents_swept");
+            probe_n("sweep.single_faults.json_structural", faults.len() as u64);
+            cases.extend(faults.into_iter().map(|f| Case::JsonValue { frame: 0, faults: vec![f] }));
+        } else {
+            probe("sweep.json_documents_skipped_too_many_nodes");
+        }
+        if let Ok(text) = serde_json::to_vec(&lib) {
+            let mut n = 0u64;
+            for (at, len) in json_number_sites(&text) {
+                for new in ["1e400", "-1", "4294967296", "1.5", "01", "99999999999999999999999", "1e-400", "-0"] {
+                    cases.push(Case::JsonText {
+                        frame: 0,
+                        faults: vec![Fault::Rewrite {
+                            at,
+                            old_len: len,
+                            new: new.as_bytes().to_vec(),
+                            class: FieldClass::Id,
+                            how: "json_number".to_string(),
+                        }],
+                        reader: None,
+                        err: None,
+                    });
+                    n += 1;
+                }
+            }
+            // every truncation of the text
+            for at in 0..text.len().min(SWEEP_MAX_FRAME) {
+                cases.push(Case::JsonText { frame: 0, faults: vec![Fault::Truncate(at)], reader: None, err: None });
+                n += 1;
+            }
+            probe_n("sweep.single_faults.json_text", n);
+        }
+    }
     probe("sweep.frames_swept");
     probe_n("sweep.frame_bytes_swept", bytes.len() as u64);
     probe_n("sweep.single_faults.truncation_points_x2_readers", 2 * bytes.len() as u64);
@@ -1228,7 +1393,7 @@ pub fn sweep_scenario(frame: &PReg) -> Result<Option<WireScenario>, String> {
     probe_n("sweep.single_faults.io_error_offsets_x6_kinds", 6 * (bytes.len() as u64 + 1));
     probe_n(
         "sweep.single_faults.targeted_rewrites",
-        cases.len() as u64 - 10 * bytes.len() as u64 - 6 * (bytes.len() as u64 + 1),
+        n_scale_cases as u64 - 10 * bytes.len() as u64 - 6 * (bytes.len() as u64 + 1),
     );
     if let Some(s) = &sites {
         probe_n("sweep.fields_located_by_aiming_parser", s.len() as u64);
